@@ -131,6 +131,9 @@ class StopShrink(KeyboardInterrupt):
 SHRINK_BUDGET = {'quick': (400, 25.0), 'thorough': (4000, 240.0)}   # (evaluations, seconds) after the first failure
 
 
+HANG_CAP = 30
+
+
 class AbortRun(KeyboardInterrupt):
     """Raised after a confirmed wall-clock hang: every further evaluation (and above all shrinking) would cost the full
     time limit again, so the task records the case as it is and stops. Hypothesis re-raises KeyboardInterrupt at once."""
@@ -204,6 +207,17 @@ class Ctx:
         """collect (enumeration style); returns True if it counts as a new violation"""
         if self._known(signature):
             return False
+        if 'non-termination' in signature:
+            # every non-terminating input costs its full step budget (much more when the library logs inside the loop):
+            # once a task has met HANG_CAP of them the verdict is in, and the task stops instead of paying for thousands
+            self.hangs = getattr(self, 'hangs', 0) + 1
+            if self.hangs > HANG_CAP:
+                self._record(signature, case, message)
+                self.note(f'task stopped after {HANG_CAP} non-terminating inputs')
+                raise AbortRun(signature)
+        return self._record(signature, case, message)
+
+    def _record(self, signature, case, message):
         e = enc(case)
         size = len(json.dumps(e, default=repr))
         cur = self.violations.get(signature)
@@ -230,6 +244,11 @@ class Ctx:
             raise AbortRun(signature)
         if signature in self.excluded:
             self.labels['stepped-over:' + signature] += 1
+            if 'non-termination' in signature:
+                self.hangs = getattr(self, 'hangs', 0) + 1
+                if self.hangs > HANG_CAP:
+                    self.note(f'task stopped after {HANG_CAP} non-terminating inputs')
+                    raise AbortRun(signature)
             return
         self._last = (signature, case, message)
         raise Violation(signature)
@@ -321,7 +340,7 @@ def drive(ctx, strategy, body, max_examples, salt='', rounds=5, shrink=True):
             ctx.excluded.add(sig)
             continue
         except AbortRun:
-            ctx.note('task stopped after a confirmed wall-clock hang (every further evaluation would cost the full limit)')
+            ctx.note('task stopped after a confirmed wall-clock hang or too many non-terminating inputs (every further one costs its full budget)')
             break
         except Violation:
             sig, case, msg = ctx._last
@@ -474,6 +493,8 @@ def _run_task(args):
         ctx.labels['tasks-without-dateutil' if ctx.env.get('no_dateutil') else 'tasks-with-dateutil'] += 1
         try:
             getattr(mod, fname)(ctx, **kwargs)
+        except AbortRun:
+            pass            # the task gave up early (hangs); what it found so far stands
         finally:
             apply_env(None)
         return ('ok', ctx.export())
